@@ -195,7 +195,8 @@ def register(reg):
         return {'self': mk_walker(it, ['group', 'nothing', 'error']), 'pos': sym_int(it, 'pos', lo=0), 'parsing_state': opt_state(it)}
     c = Contract(WM + '_pyltxenc2_LatexWalker_get_latex_maybe_optional_arg', setup=setup_oa,
                  ensures=[('internal:reads-one-optional-square-bracket-group-from-pos',
-                           "one_call_with(self, pos, parsing_state, 'LatexOptionalSquareBracketsParser', delimiters=('[', ']'), optional=True)"),
+                           "one_call_with(self, pos, parsing_state, 'LatexOptionalSquareBracketsParser', delimiters=('[', ']'), optional=True, "
+                           "allow_pre_space=True)"),      # whitespace before the bracket is skipped, as in pylatexenc 2 (and as '[' slots do)
                           ('internal:an-absent-argument-is-None', 'implies(pc_node() is None, result is None)'),
                           ('internal:returns-the-node-its-position-and-its-length',
                            'implies(pc_node() is not None, result[0] is pc_node() and result[1] == pc_node().pos and '
@@ -576,13 +577,129 @@ def register(reg):
     reg.add_loop(LoopContract(VAP + '.parse_args', 0, invariant=[('position-stays-inside-the-string', 'old(pos) <= pos and pos <= len(w.s)')],
                               variant='len(w.s) - pos'))
 
+    # ---- the legacy standard arguments parser: the slots are read one after the other, each from where the previous one ended ---------
+    MSAP = 'pylatexenc.macrospec._pyltxenc2_argparsers._base.MacroStandardArgsParser'
+    ARGSPECS = [''] + [a for a in '{[*'] + [a + b for a in '{[*' for b in '{[*']
+
+    def setup_msap(it):
+        ctx = it.ctx
+        spec = ARGSPECS[ctx.choose(len(ARGSPECS), 'argspec')]
+        s = sym_str(it, 's')
+        log = ctx.ghost.setdefault('slot_reads', [])
+        ps = mk_parsing_state(it, 'parsing_state', with_context=False)
+
+        def some_node(it2, tag):
+            return AbsVal(it2.ctx.fresh_int(tag), 'node', attrs={'truth': lambda it3, sf: True})
+
+        def span_after(it2, p):
+            np_, nl = it2.ctx.fresh_int('np'), it2.ctx.fresh_int('nl')
+            it2.ctx.assume(z3.And(np_ >= zint(p), nl >= 0))
+            return np_, nl
+
+        def get_latex_expression(it2, sf, a, kw):
+            p = a[0] if a else kw['pos']
+            np_, nl = span_after(it2, p)
+            n = some_node(it2, 'expr')
+            log.append(('{', p, n, simp(np_ + nl), kw.get('parsing_state'), kw.get('strict_braces')))
+            return (n, np_, nl)
+
+        def get_latex_maybe_optional_arg(it2, sf, a, kw):
+            p = a[0] if a else kw['pos']
+            if it2.ctx.choose(2, 'an optional argument is present') == 0:
+                log.append(('[', p, None, p, kw.get('parsing_state'), None))
+                return None
+            np_, nl = span_after(it2, p)
+            n = some_node(it2, 'optarg')
+            log.append(('[', p, n, simp(np_ + nl), kw.get('parsing_state'), None))
+            return (n, np_, nl)
+
+        def get_token(it2, sf, a, kw):
+            p = a[0] if a else kw['pos']
+            k = it2.ctx.choose(4, 'token at the star slot')
+            if k == 3:
+                # the input ends here: the legacy get_token() raises end-of-stream; the slot is simply absent
+                log.append(('*', p, None, p, None, None))
+                raise PyExc(it2.call(resolve_class(it2, EXC + 'LatexWalkerEndOfStream'), [], {}), 'w.get_token at the end of the input')
+            tp = it2.ctx.fresh_int('tok.pos')
+            it2.ctx.assume(tp >= zint(p))                   # whitespace before the token is skipped by the tokenizer
+            if k == 0:
+                tok = mk_token(it2, 'char', V.sconcat('*', it2.fresh_str('more_chars')), tp, simp(tp + 1), '')
+                log.append(('*', p, 'star', simp(tp + 1), None, tp))
+            else:
+                tok = mk_token(it2, ['macro', 'char'][k - 1], 'x', tp, simp(tp + 1), '')
+                log.append(('*', p, None, p, None, tp))
+            return tok
+
+        def make_node(it2, sf, a, kw):
+            return AbsVal(it2.ctx.fresh_int('starnode'), 'node', attrs=dict(kw, truth=lambda it3, sf2: True, node_class=a[0].name))
+        w = AbsVal(z3.Int('w'), 'walker', attrs={'s': s},
+                   methods={'get_latex_expression': get_latex_expression, 'get_latex_maybe_optional_arg': get_latex_maybe_optional_arg,
+                            'get_token': get_token, 'make_node': make_node, 'make_parsing_state': lambda it2, sf, a, kw: ps})
+        me = new_obj(it, MSAP, {'argspec': spec, 'optional_arg_no_space': sym_bool(it, 'optional_arg_no_space'),
+                                'args_math_mode': None, '_like_pylatexenc1x_ignore_leading_star': False}, tag='self')
+        pos = sym_int(it, 'pos', lo=0)
+        ctx.assume(pos <= zint(V.slen(s)))
+        return {'self': me, 'w': w, 'pos': pos, 'parsing_state': ps}
+
+    @reg.spec('slots_read_one_after_the_other')
+    def slots_read_one_after_the_other(it, me, pos, ps, result):
+        """the log of reads made through the walker: slot j is read at the position where slot j-1 ended (for a star: just
+        after the star, whatever whitespace stood before it; for an absent optional argument or star: unchanged), in the given
+        parsing state; the argument list holds the nodes read, None for absent ones; the reported span is (pos, end - pos)"""
+        log = it.ctx.ghost.get('slot_reads', [])
+        spec = me.fields['argspec']
+        parsed, rpos, rlen = result
+        nodes = parsed.fields['argnlist'].items
+        out = [len(nodes) == len(spec), it.truth_term(it.equal_term(rpos, pos))]
+        cur = pos
+        k = 0
+        for j, letter in enumerate(spec):
+            if k >= len(log) or log[k][0] != letter:
+                # an optional argument that is not even looked for because whitespace precedes it
+                if letter == '[' and nodes[j] is None:
+                    continue
+                return False
+            (_l, p, node, nxt, st, extra) = log[k]
+            k += 1
+            out.append(it.truth_term(it.equal_term(p, cur)))
+            if letter != '*':
+                out.append(st is ps)
+            if letter == '{':
+                it.ctx.ghost.setdefault('strict_braces_asked', []).append(extra)
+            if node == 'star':
+                nd = nodes[j]
+                out.append(isinstance(nd, AbsVal) and nd.attrs.get('node_class') == 'LatexCharsNode' and nd.attrs.get('chars') == '*')
+                if isinstance(nd, AbsVal) and 'pos' in nd.attrs:
+                    out.append(it.truth_term(it.equal_term(nd.attrs['pos'], extra)))
+            else:
+                out.append(nodes[j] is node)
+            cur = nxt
+        out.append(k == len(log))
+        out.append(it.truth_term(it.equal_term(rlen, simp(zint(cur) - zint(pos)))))
+        return z_and(*out)
+    @reg.spec('mandatory_slots_fail_where_the_new_parser_fails')
+    def mandatory_slots_fail(it):
+        """a mandatory slot is read with the walker's own strictness (strict_braces=None), so that at a closing brace it raises in
+        strict mode exactly as MacroSpec(..., '{') does; strict_braces=False makes it succeed with an empty chars node"""
+        return all(x is None for x in it.ctx.ghost.get('strict_braces_asked', []))
+    c = Contract(MSAP + '.parse_args', setup=setup_msap,
+                 ensures=[('internal:the-slots-are-read-one-after-the-other-each-from-where-the-previous-one-ended',
+                           'slots_read_one_after_the_other(self, pos, parsing_state, result)'),
+                          ('internal:a-mandatory-slot-at-a-closing-brace-fails-in-strict-mode-as-the-new-parser-does',
+                           'mandatory_slots_fail_where_the_new_parser_fails()')],
+                 modifies=[])
+    c.extra_olds = ['pos']
+    units['MacroStandardArgsParser.parse_args'] = FunctionUnit(c, inline={
+        'pylatexenc.macrospec._pyltxenc2_argparsers._base.ParsedMacroArgs.__init__', PARGS + '.__init__'})
+
     for k in units:
         contracts.REPLAYERS[k] = replay
     contracts.EXTRA_ASSUMPTIONS['C16'] = [
         "parse_content enters as an arbitrary outcome (a node with an arbitrary span, nothing, or a parse error); that the legacy "
         "call then agrees with the new parser follows because it IS one call of that parser (clause 'one_call_with')",
-        "MacroStandardArgsParser.parse_args' own argument loop is not proved equal to LatexArgumentsParser on all inputs (a "
-        "two-program equivalence); the spellings are compared by the per-slot argument letters they produce",
+        "MacroStandardArgsParser.parse_args is verified slot by slot against the legacy walker methods it calls (signatures up to two "
+        "slots, args_math_mode None); that its result equals LatexArgumentsParser's on all inputs is a two-program equivalence, not "
+        "claimed; the spellings are compared by the per-slot argument letters they produce",
         "get_token (a thin composition make_token_reader(pos).peek_token(derived state)) has no unit"]
     return {'C16': units}
 
@@ -642,7 +759,7 @@ def search():
                         elif not same(node, n[1]) or p != n[1].pos or l != n[1].pos_end - n[1].pos:
                             return "get_latex_braced_group(%r, %d, %r) tolerant=%r returns %r; the group parser gives %r" % (s, pos, bt, tol, o[1], n[1])
                 o = old("get_latex_maybe_optional_arg", s, pos, tol)
-                n = new(s, pos, Ps.LatexOptionalSquareBracketsParser(), tol)
+                n = new(s, pos, Ps.LatexOptionalSquareBracketsParser(allow_pre_space=True), tol)
                 if o[0] != n[0]:
                     return "get_latex_maybe_optional_arg(%r, %d) tolerant=%r: %r but the parser: %r" % (s, pos, tol, o, n)
                 if o[0] == "ok" and ((o[1] is None) != (n[1] is None) or (o[1] is not None and (not same(o[1][0], n[1]) or o[1][1] != n[1].pos or o[1][2] != n[1].pos_end - n[1].pos))):
@@ -678,6 +795,20 @@ def search():
                             return "get_latex_nodes(%r, %d, %r) tolerant=%r returns %r; the general nodes parser gives %r up to %r" % (s, pos, kw, tol, o[1], n[1], n[2])
     return None
 
+def strict_mandatory_slot():
+    from pylatexenc.macrospec import MacroSpec, MacroStandardArgsParser, LatexContextDb
+    out = {}
+    for nm, sp in (("MacroStandardArgsParser", MacroSpec("m", args_parser=MacroStandardArgsParser("{"))), ("new", MacroSpec("m", "{"))):
+        db = LatexContextDb(); db.add_context_category("x", macros=[sp])
+        try:
+            nl, _ = LatexWalker(r"{\m}", latex_context=db, tolerant_parsing=False).parse_content(Ps.LatexGeneralNodesParser())
+            out[nm] = ("ok", dump(nl))
+        except LatexWalkerError as e:
+            out[nm] = ("err", type(e).__name__)
+    if out["MacroStandardArgsParser"][0] != out["new"][0]:
+        return "strict parse of '{\\m}': MacroSpec('m', args_parser=MacroStandardArgsParser('{')) gives %r, MacroSpec('m', '{') gives %r" % (
+            out["MacroStandardArgsParser"], out["new"])
+
 def spellings():
     """every spelling of an argument signature gives the same argument letters and the same parse"""
     from pylatexenc.macrospec import MacroSpec, std_macro, std_environment, EnvironmentSpec, MacroStandardArgsParser, LatexContextDb
@@ -703,9 +834,18 @@ def spellings():
             for nm, sp in specs.items():
                 db = LatexContextDb(); db.add_context_category("x", macros=[sp])
                 doc = r"ab \foo*[o]{m}{n} z"
+                if a[:2] == "{*" and "[" not in a:
+                    doc = r"ab \foo{o} *{m}{n} z"       # whitespace before the star is skipped by every spelling
+                if a[:2] == "{[":
+                    doc = r"ab \foo{o} [m]{n}{p} z"     # ... and before an optional argument
+                if a in ("*", "{*", "[*"):
+                    doc = {"*": r"ab \foo", "{*": r"ab \foo{o}", "[*": r"ab \foo[o]"}[a]      # a star slot at the end of the input
                 try:
                     nl, _ = LatexWalker(doc, latex_context=db, tolerant_parsing=False).parse_content(Ps.LatexGeneralNodesParser())
                     m = [x for x in nl if isinstance(x, N.LatexMacroNode)][0]
+                    if m.nodeargd is None:
+                        outs[nm] = (m.pos, m.pos_end, "no arguments object")
+                        continue
                     outs[nm] = (m.pos, m.pos_end, [None if x is None else (type(x).__name__, x.pos, x.pos_end) for x in m.nodeargd.argnlist], m.nodeargd.argspec)
                 except LatexWalkerError as e:
                     outs[nm] = ("err", type(e).__name__)
@@ -729,8 +869,19 @@ def spellings():
 
 
 def replay(o, model):
+    if 'a-mandatory-slot-at-a-closing-brace' in (o.get('name') or ''):
+        # the replay of this clause looks at its own witness first
+        return NATIVE + '''
+m = strict_mandatory_slot()
+if m: reproduced(m, witness_class="legacy-mandatory-argument-at-a-closing-brace")
+m = spellings() or search()
+if m: reproduced(m)
+not_reproduced()
+'''
     return NATIVE + '''
 m = spellings() or search()
 if m: reproduced(m)
+m = strict_mandatory_slot()
+if m: reproduced(m, witness_class="legacy-mandatory-argument-at-a-closing-brace")
 not_reproduced()
 '''
